@@ -335,9 +335,10 @@ class PurityWorld:
             )
 
     # ---- clause 2: parameter stability
-    def check_params(self, name, what):
+    def check_params(self, name, what, obj=None):
         m = self.meta[name]
-        obj = self.objs[name]
+        persist = obj is None
+        obj = self.objs[name] if obj is None else obj
         try:
             now = {k: freeze(v) for k, v in ctor_state(obj).items()}
         except Exception:  # noqa: BLE001
@@ -354,7 +355,8 @@ class PurityWorld:
                     before_form=type(m["params0_raw"].get(k)).__name__,
                     after_form=type(pv).__name__,
                 )
-                m["params0"][k] = now.get(k)
+                if persist:
+                    m["params0"][k] = now.get(k)
 
     # ---- main
     def run(self):
@@ -395,7 +397,7 @@ class PurityWorld:
         }
 
     # ---- guarded execution of one call
-    def guarded(self, fn, envspec, what, cls, args, target_for_dry=None):
+    def guarded(self, fn, envspec, what, cls, args, target_for_dry=None, sweep=None, sweep_check=None):
         """Run fn() under the environment script; handles INTERRUPT injection.
 
         Returns (result, exc, injected: bool)."""
@@ -426,6 +428,34 @@ class PurityWorld:
             if not n_lines:
                 itr = None
                 self.count("interrupt_not_armed")
+            elif itr.get("all") and sweep is not None:
+                # crash-point enumeration: the fault is injected at *every* skmatter line
+                # event of this call, each time on a private copy of the object but on the
+                # caller's real arrays; heap and parameters are checked after each crash
+                excs = {"KeyboardInterrupt": InjectedInterrupt, "MemoryError": InjectedMemoryError}[itr["exc"]]
+                step = max(1, n_lines // int(itr.get("max_points", 400)))
+                for k in range(1, n_lines + 1, step):
+                    try:
+                        call, target = sweep()
+                    except Exception:  # noqa: BLE001
+                        break
+                    with self.env.op({kk: v for kk, v in envspec.items() if kk not in ("interrupt", "stderr")}):
+                        try:
+                            with self.env.interrupter.armed(k, excs):
+                                call()
+                        except (InjectedInterrupt, InjectedMemoryError):
+                            pass
+                        except Exception:  # noqa: BLE001
+                            pass
+                    self.count("crash_points_enumerated")
+                    nv = len(self.violations)
+                    self.check_heap(f"{what} interrupted at line event {k}/{n_lines}", cls, args)
+                    if sweep_check is not None and target is not None:
+                        sweep_check(target, f"{what} interrupted at line event {k}/{n_lines}")
+                    if len(self.violations) > nv:
+                        break
+                self.probe("crash_points_enumerated_for_a_call")
+                itr = None
         res, exc = None, None
         with self.env.op({k: v for k, v in envspec.items() if k != "interrupt"}) as out:
             try:
@@ -500,8 +530,19 @@ class PurityWorld:
             o2 = copy.deepcopy(obj)
             return self._fit_call(o2, kind, op["args"], fresh=True)()
 
+        def sweep():
+            o2 = copy.deepcopy(obj)
+            return self._fit_call(o2, kind, op["args"]), o2
+
         res, exc, injected, out = self.guarded(
-            self._fit_call(obj, kind, op["args"]), op.get("env"), what, kind, op["args"], target_for_dry=lambda: dry
+            self._fit_call(obj, kind, op["args"]),
+            op.get("env"),
+            what,
+            kind,
+            op["args"],
+            target_for_dry=lambda: dry,
+            sweep=sweep,
+            sweep_check=lambda o2, w: self.check_params(name, w, obj=o2),
         )
         m["fits"].append({"args": op["args"], "ok": exc is None, "env": op.get("env")})
         self.check_heap(what, kind, op["args"], exc)
@@ -621,7 +662,21 @@ class PurityWorld:
             p2, a2 = split_args(self.resolve(op["args"], fresh=True))
             return getattr(o2, meth)(*p2, **a2)
 
-        res, exc, injected, out = self.guarded(call, op.get("env"), what, kind, op["args"], target_for_dry=lambda: dry)
+        def sweep():
+            o2 = copy.deepcopy(obj)
+            p3, a3 = split_args(self.resolve(op["args"]))
+            return (lambda: getattr(o2, meth)(*p3, **a3)), o2
+
+        res, exc, injected, out = self.guarded(
+            call,
+            op.get("env"),
+            what,
+            kind,
+            op["args"],
+            target_for_dry=lambda: dry,
+            sweep=sweep,
+            sweep_check=lambda o2, w: self.check_params(name, w, obj=o2),
+        )
         self.check_heap(what, kind, op["args"], exc)
         self.check_params(name, what)
         if exc is not None:
@@ -692,7 +747,9 @@ class PurityWorld:
             return fn(*p2, **a2)
 
 
-        res, exc, injected, out = self.guarded(call, op.get("env"), what, op["fn"], op["args"], target_for_dry=lambda: dry)
+        res, exc, injected, out = self.guarded(
+            call, op.get("env"), what, op["fn"], op["args"], target_for_dry=lambda: dry, sweep=lambda: (call, None)
+        )
         self.check_heap(what, op["fn"], op["args"], exc)
         if exc is not None:
             self.log.add("FN", op["fn"], "raise", type(exc).__name__)
